@@ -4,8 +4,8 @@
 From Coq Require Import List Arith ZArith Bool.
 Import ListNotations.
 From Acts.Gen Require Import GenState.
-From Acts.Model Require Import Engine.
-From Acts.Proofs Require Import EngineBasics TimeoutInv C02Core C02Ops C19Proofs.
+From Acts.Model Require Import Engine Limit.
+From Acts.Proofs Require Import EngineBasics TimeoutInv C02Core C02Ops C19Proofs LimitProofs.
 
 (* in every run -- any node table, any interleaving of scheduler steps, client actions and ticks of
    any spacing -- a rule fires only when the task has been open for at least the configured
@@ -43,8 +43,31 @@ Example C19_example :
   fires (trace e) = [(2, 2)] /\ st e 2 = SInterrupt.
 Proof. vm_compute. auto. Qed.
 
+(* the configured duration: a limit is a value followed by one unit letter (s, m, h, d), the value an i64 as
+   i64::from_str reads it; the tick compares the elapsed milliseconds with value * factor(unit) * 1000, a longer
+   configured duration never gives a shorter limit (model/Limit.v, compared with TimeoutLimit::parse / as_secs on
+   generated strings, overflow boundaries included, and used by the engine model for every rule) *)
+Theorem C19_limit_syntax :
+  forall s v u, parse_limit s = Some (v, u) <-> exists p, s = p ++ [byte_of_unit u] /\ parse_i64 p = Some v.
+Proof. exact parse_limit_spec. Qed.
+Theorem C19_limit_value_is_i64 : forall l v, parse_i64 l = Some v -> (i64_min <= v <= i64_max)%Z.
+Proof. exact parse_i64_range. Qed.
+Theorem C19_limit_conversion :
+  (forall v u, as_secs (v, u) = (v * factor u)%Z) /\
+  factor USecond = 1%Z /\ factor UMinute = 60%Z /\ factor UHour = (60 * 60)%Z /\ factor UDay = (60 * 60 * 24)%Z.
+Proof. split; [exact as_secs_factor | exact factor_values]. Qed.
+Theorem C19_limit_monotone : forall v v' u, (v <= v')%Z -> (limit_ms (v, u) <= limit_ms (v', u))%Z.
+Proof. exact limit_monotone. Qed.
+Example C19_limit_example :
+  parse_limit [57; 48; 109] = Some (90%Z, UMinute) /\ limit_ms (90%Z, UMinute) = 5400000%Z /\
+  parse_limit [53; 32; 115] = None /\ parse_limit [45; 115] = None.
+Proof. vm_compute. auto. Qed.
 Print Assumptions C19_never_early.
 Print Assumptions C19_at_most_once.
 Print Assumptions C19_closed_never_fires.
 Print Assumptions C19_fires_when_due.
 Print Assumptions C19_firing_keeps_states.
+Print Assumptions C19_limit_syntax.
+Print Assumptions C19_limit_value_is_i64.
+Print Assumptions C19_limit_conversion.
+Print Assumptions C19_limit_monotone.
